@@ -40,11 +40,17 @@ func VH_C14_contain() {
 	if mode == 2 {
 		nSrc, nDst = 4, 2
 	}
+	if mode == 3 {
+		// include patterns: directories that are not selected themselves are created late, when a
+		// selected descendant turns up
+		nSrc = 1
+	}
 	m.Reset()
 	out, src, dst := m.Root("out"), m.Root("src"), m.Root("dst")
 	m.MkFile(out+"/secret", []byte("s"), 0600, 1, 1, 5)
 	m.MkDir(out+"/sub", 0700, 1, 1, 5)
 	m.MkFile(out+"/sub/k", []byte("k"), 0600, 1, 1, 5)
+	m.MkFile(out+"/sub/g", []byte("outside g"), 0600, 1, 1, 5) // same name as the source file d/g
 	m.SetMtime(out+"/sub", 5)
 	m.SetMtime(out, 5)
 
@@ -87,10 +93,17 @@ func VH_C14_contain() {
 	if mode == 1 {
 		nSP, nDP = 2, 2
 	}
+	if mode == 3 {
+		nSP, nDP = 1, 1
+	}
 	srcPath := []string{".", "f", "d", "sl", "sl/g", "..", "d/.."}[v.Choose("src-path", nSP)]
 	dstPath := []string{".", "x", "d", "x/y"}[v.Choose("dst-path", nDP)]
 	ci := CopyInfo{CopyDirContents: v.Bool("dir-contents"), AlwaysReplaceExistingDestPaths: v.Bool("always-replace")}
-	if mode != 1 {
+	if mode == 3 {
+		ci.IncludePatterns = [][]string{{"d/g"}, {"d/*"}, {"**/g"}}[v.Choose("include", 3)]
+		v.Cover("include-patterns")
+	}
+	if mode != 1 && mode != 3 {
 		ci.FollowLinks = v.Bool("follow")
 		if v.Bool("mode-option") {
 			// a numeric mode requested for everything copied (it must never reach a link's target)
